@@ -13,7 +13,9 @@ from __future__ import annotations
 import asyncio
 import datetime as _dt
 import itertools
+import os
 import uuid
+from unittest import mock
 import warnings
 import xml.etree.ElementTree as ET
 from typing import Any, Dict, List, Optional
@@ -79,6 +81,28 @@ def _make_vdt(loop):
     return VDT
 
 
+class _RunnerStub:
+    """stands in for aiohttp's AppRunner: keeps the Application the server built"""
+    captured = None
+
+    def __init__(self, app, *a, **k):
+        _RunnerStub.captured = app
+
+    async def setup(self):
+        _RunnerStub.captured.freeze()  # what AppRunner.setup does before serving (signals must be frozen)
+
+
+class _SiteStub:
+    def __init__(self, *a, **k):
+        self.name = "stub"
+
+    async def start(self):
+        pass
+
+    async def stop(self):
+        pass
+
+
 class _Writer:
     """payload writer of the mocked request: reports the moment the response headers are written"""
 
@@ -132,6 +156,21 @@ def _body_token(body: str, names: List[str]) -> str:
     return ",".join(f"{i}={tok_str(v)}" for i, v in out) if out else "~"
 
 
+def granted_tok(to: Optional[str]) -> str:
+    """the granted timeout of a SUBSCRIBE response in seconds: UDA's `Second-n` (any case) or a bare `n`;
+    `Second-infinite` is a timeout that never runs out; anything else is no granted timeout at all (`~`)"""
+    if to is None:
+        return "~"
+    t = to.strip()
+    if t.lower().startswith("second-"):
+        t = t[7:]
+    if t.lower() == "infinite":
+        return str(10 ** 12)
+    if t.isascii() and t.isdigit() or (t[:1] == "-" and t[1:].isascii() and t[1:].isdigit()):
+        return str(int(t))
+    return "~"
+
+
 def val_tok(v) -> str:
     if v is None:
         return "N"
@@ -183,6 +222,7 @@ def run_recipe(ctx: Ctx, recipe: Dict[str, Any], cid: str) -> Case:
     ndel = [0] * nsvc
     in_adv = [False]
     svc_objs: List[Any] = []
+    app_box: List[Any] = []
 
     def now_us() -> int:
         return round(loop.time() * 1e6)
@@ -259,9 +299,9 @@ def run_recipe(ctx: Ctx, recipe: Dict[str, Any], cid: str) -> Case:
         to = headers.get("TIMEOUT") if headers is not None else None
         if status != 200:
             return f"@{k} o resp {status} ~ ~"
-        return f"@{k} o resp {status} {'~' if sid is None else sid_idx(k, sid)} {'~' if to is None else to}"
+        return f"@{k} o resp {status} {'~' if sid is None else sid_idx(k, sid)} {granted_tok(to)}"
 
-    async def call_handler(fn, k, method, headers) -> None:
+    async def call_handler(k, method, headers) -> None:
         st = {"logged": False, "sid": None}
 
         def on_headers(status_line, hdrs):
@@ -270,16 +310,26 @@ def run_recipe(ctx: Ctx, recipe: Dict[str, Any], cid: str) -> Case:
                 st["sid"] = hdrs.get("SID")
                 obs.append(resp_line(k, int(status_line.split()[1]), hdrs))
 
-        req = make_mocked_request(method, f"/e{k}", headers=headers, writer=_Writer(on_headers), loop=loop)
+        req = make_mocked_request(method, f"/e{k}", headers=headers, writer=_Writer(on_headers), loop=loop, app=app_box[0])
 
         async def wrapped():
+            from aiohttp import web
             try:
-                resp = await fn(svc_objs[k], req)
+                info = await app_box[0].router.resolve(req)  # the server's own route table decides which handler runs
+                resp = await info.handler(req)
+            except web.HTTPException as e:  # e.g. 405 when the method has no route
+                if not st["logged"]:
+                    st["logged"] = True
+                    obs.append(f"@{k} o resp {e.status} ~ ~")
+                return
             except Exception as e:  # noqa: BLE001 - reported as an observation
                 if not st["logged"]:
                     st["logged"] = True
                     obs.append(f"@{k} o resp 500 ~ ~")
                     tags.add(f"handler-exc:{type(e).__name__}")
+                    if os.environ.get("C15_DEBUG"):
+                        import traceback
+                        traceback.print_exc()
                 elif st["sid"] in sids[k]:
                     obs.append(f"@{k} o exc {sid_idx(k, st['sid'])}")  # raised after the response: the initial NOTIFY failed
                     tags.add("initial-delivery-failed")
@@ -350,7 +400,16 @@ def run_recipe(ctx: Ctx, recipe: Dict[str, Any], cid: str) -> Case:
     async def main() -> None:
         srv.datetime = cli.datetime = _make_vdt(loop)
         srv.UpnpEventableStateVariable.trigger_event = trigger_event
-        dev = Dev(Requester(), "http://192.0.2.9:8000")
+        # the real UpnpServer with its real aiohttp Application / route table (no socket, no SSDP); every SUBSCRIBE /
+        # UNSUBSCRIBE below is resolved by that router, so the route table is part of every case
+        shared_requester = Requester()
+        with mock.patch.object(srv, "AppRunner", _RunnerStub), mock.patch.object(srv, "TCPSite", _SiteStub), \
+                mock.patch.object(srv, "AiohttpRequester", lambda *a, **k: shared_requester):
+            server = srv.UpnpServer(Dev, ("192.0.2.9", 0), http_port=8000)
+            server._create_device()  # noqa: SLF001
+            await server._async_start_http_server()  # noqa: SLF001
+        app_box.append(_RunnerStub.captured)
+        dev = server._device  # noqa: SLF001
         svc_objs.extend(dev.services[f"urn:x:service:S{k}:1"] for k in range(nsvc))
         await _settle(loop)
         obs.clear()  # construction-time triggers (default values) precede the history
@@ -370,7 +429,7 @@ def run_recipe(ctx: Ctx, recipe: Dict[str, Any], cid: str) -> Case:
                 if to is not None:
                     hdr["TIMEOUT"] = to
                 lines.append(f"{at}sub {opt_tok(cb)} {opt_tok(to)}")
-                await call_handler(srv.subscribe_handler, k, "SUBSCRIBE", hdr)
+                await call_handler(k, "SUBSCRIBE", hdr)
             elif name == "renew":
                 _, ref, cb, to = op
                 hdr = {"SID": sid_of(k, ref)}
@@ -381,14 +440,14 @@ def run_recipe(ctx: Ctx, recipe: Dict[str, Any], cid: str) -> Case:
                 if ref == "x":
                     tags.add("foreign-sid")
                 lines.append(f"{at}renew {sid_tok(k, ref)} {opt_tok(cb)} {opt_tok(to)}")
-                await call_handler(srv.subscribe_handler, k, "SUBSCRIBE", hdr)
+                await call_handler(k, "SUBSCRIBE", hdr)
             elif name == "unsub":
                 _, ref = op
                 hdr = {} if ref is None else {"SID": sid_of(k, ref)}
                 if ref == "x":
                     tags.add("foreign-sid")
                 lines.append(f"{at}unsub {sid_tok(k, ref)}")
-                await call_handler(srv.unsubscribe_handler, k, "UNSUBSCRIBE", hdr)
+                await call_handler(k, "UNSUBSCRIBE", hdr)
             elif name == "set":
                 _, x, v = op
                 if x >= len(names[k]):
